@@ -653,7 +653,7 @@ def run(tier, seed):
         res.obligation("build harness against the working tree", False, "build")
         res.broken_tie("harness build", out[-3000:])
         return res.finish()
-    n = 4000 if tier == "quick" else 60000
+    n = 4000 if tier == "quick" else 250000
     corpus = os.path.join(C.VERIF, "corpus", "C08", "cases.jsonl")
     bad, newfail = C.phase_suite(res, "c08", seed, n, corpus)
     phase_e2e(res, tier, seed)
